@@ -17,10 +17,43 @@ def cases(tier, seed):
         yield dict(name=n, fault="few")
         for k in ((1, 2) if tier == "quick" else (1, 2, 3, 4)):
             yield dict(name=n, fault="inner", k=k)
+    # PredictableTSNE is too slow for the table above; on a handful of rows (fewer than the perplexity, which fit then has to lower
+    # for its OWN copy of the transformer) it takes a second
+    for rows in (8, 25):
+        yield dict(name="PredictableTSNE-small", fault="tsne-small", rows=rows)
+
+
+def check_tsne_small(c):
+    from sklearn.manifold import TSNE
+    from sklearn.neighbors import KNeighborsRegressor
+    from mlinsights.mlmodel import PredictableTSNE
+    rs = numpy.random.RandomState(4)
+    X = rs.randn(c["rows"], 3)
+    y = (X[:, 0] > 0).astype(int)
+    user_tsne = TSNE(random_state=0, max_iter=250, init="random")
+    est = PredictableTSNE(transformer=user_tsne, estimator=KNeighborsRegressor(n_neighbors=2))
+    p0 = EST.params_snapshot(est)
+    Xb = X.copy()
+    raised = None
+    try:
+        if est.fit(X, y) is not est:
+            return dict(**{"class": "fit-returns"}, what="fit did not return the estimator")
+        est.transform(X)
+    except Exception as e:
+        raised = e
+    if EST.params_snapshot(est) != p0:
+        diff = {k: (p0.get(k), v) for k, v in EST.params_snapshot(est).items() if p0.get(k) != v}
+        return dict(**{"class": "params-changed" + ("-after-failure" if raised is not None else "")},
+                    what="get_params changed: %r (%d rows, fit %s)" % (diff, c["rows"], "raised" if raised is not None else "succeeded"))
+    if not numpy.array_equal(X, Xb):
+        return dict(**{"class": "input-mutated"}, what="fit/transform wrote into the caller's data")
+    return None
 
 
 def check(c):
     from sklearn.base import clone
+    if c.get("fault") == "tsne-small":
+        return check_tsne_small(c)
     inner = None
     cfg0 = EST.configs()[c["name"]]
     if c["fault"] == "inner":
